@@ -20,9 +20,9 @@ def run(ctx):
     rng = random.Random(ctx.seed)
     parsed = [(l, len(json.loads(l)["posts"])) for l in lines]
     singles = [l for l, n in parsed if n == 1]
-    pairs = [l for l, n in parsed if n == 2]
-    wide = [l for l, n in parsed if n > 2]
-    if len(wide) < 6:
+    pairs = [l for l, n in parsed if n == 2 and '"w1"' not in l]
+    wide = [l for l, n in parsed if n > 2 or '"w1"' in l]
+    if len(wide) < 9:
         raise Infra("vacuity guard: the wide posting lists of Postings.tla were not emitted")
     keep = wide + singles + (pairs if thorough else rng.sample(pairs, min(len(pairs), 3500)))
     # length-3 lists: sampled chains built from pairs (receive-then-spend)
